@@ -20,3 +20,64 @@ package types
 //@                        && isErr(sub.res1, coreda.ErrBlobSizeOverLimit) ==> res.Code == coreda.StatusTooBig
 //@   ensures [other-error] sub.res1 != nil ==> res.Code != coreda.StatusSuccess
 //@   ensures [blobs] sub.arg2 == data
+
+// ---- validation -----------------------------------------------------------------------
+
+//@ pred SigOK(sh) := Signed(pkraw(sh.Signer.PubKey.val), Payload(HdrOf(sh)), val(sh.Signature))
+
+//@ func (sh *SignedHeader) ValidateBasic() (err)
+//@   property C01 C03
+//@   observe prov := call signatureProvider
+//@   observe dprov := call DefaultSignaturePayloadProvider
+//@   observe ka := call KeyAddress
+//@   ensures [basic] err == nil ==> (len(sh.ProposerAddress) > 0 && len(sh.Signature) > 0
+//@                       && val(sh.ProposerAddress) == val(sh.Signer.Address) && SigOK(sh) && sh.Signer.PubKey != nil)
+//@   ensures [key-is-address] err == nil ==> AddrOf(pkraw(sh.Signer.PubKey.val)) == val(sh.ProposerAddress)
+//@   ensures [complete] len(sh.ProposerAddress) > 0 && len(sh.Signature) > 0 && val(sh.ProposerAddress) == val(sh.Signer.Address) && SigOK(sh)
+//@                       && sh.Signer.PubKey != nil && AddrOf(pkraw(sh.Signer.PubKey.val)) == val(sh.Signer.Address)
+//@                       ==> err == nil || (prov && prov.res1 != nil) || (dprov && dprov.res1 != nil) || (ka && ka.res0 == nil)
+
+//@ pred DataMatchesHeader(header, data) := (data.Metadata != nil ==> (header.BaseHeader.ChainID == data.Metadata.ChainID
+//@                       && header.BaseHeader.Height == data.Metadata.Height && TimeOfU64(header.BaseHeader.Time) == TimeOfU64(data.Metadata.Time)))
+//@                       && val(header.DataHash) == CommitTxs(TxsId(data.Txs))
+//@ pred TimeOfU64(u) := ite(u < 9223372036854775808, u, u - 18446744073709551616)
+
+//@ func Validate(header, data) (err)
+//@   property C01 C02
+//@   requires [non-nil] header != nil && data != nil
+//@   ensures [matches] err == nil <==> DataMatchesHeader(header, data)
+
+//@ func (d *Data) Size() (n)
+//@   trusted
+//@   ensures [size] n >= 0
+
+//@ spec func HashData(Int, DMeta) Bytes
+//@ func (d *Data) Hash() (r)
+//@   trusted
+//@   ensures [hash] val(r) == HashData(TxsId(d.Txs), DMetaOf(d)) && len(r) == 32
+
+// ---- C03: who signed it -------------------------------------------------------------------
+
+// the address of a key is sha256 of its raw bytes
+//@ func KeyAddress(pubKey) (r)
+//@   property C03 C19
+//@   requires [non-nil] pubKey != nil
+//@   ensures [address] r != nil ==> val(r) == AddrOf(pkraw(pubKey.val)) && len(r) == 32
+
+// Genuine(sh, addr): signed under the key whose address is addr
+//@ pred GenuineHeader(sh, addr) := SigOK(sh) && AddrOf(pkraw(sh.Signer.PubKey.val)) == addr && val(sh.ProposerAddress) == addr
+
+// go-header calls Validate() on every header received over P2P; it must be SignedHeader's own
+// method (which checks the signature), not the one promoted from the embedded Header.
+//@ methodset *SignedHeader Validate declared-on SignedHeader property C03
+
+//@ func (sh *SignedHeader) Validate() (err)
+//@   property C03
+//@   ensures [p2p-validate] err == nil ==> SigOK(sh) && AddrOf(pkraw(sh.Signer.PubKey.val)) == val(sh.ProposerAddress) && len(sh.Signature) > 0
+
+//@ func (sh *SignedHeader) Verify(untrstH) (err)
+//@   property C03
+//@   requires [non-nil] untrstH != nil
+//@   ensures [p2p-verify] err == nil ==> val(untrstH.ProposerAddress) == val(sh.ProposerAddress)
+//@   ensures [p2p-verify-adjacent] err == nil && U64Inc2(sh.BaseHeader.Height) == untrstH.BaseHeader.Height ==> val(untrstH.LastHeaderHash) == HashHdr(HdrOf(sh))
+//@ pred U64Inc2(x) := ite(x + 1 < 18446744073709551616, x + 1, 0)
